@@ -213,10 +213,16 @@ def run_config(chk, config):
             for k in (hs["P"], hs["O"]):
                 if k in facts and o["unused"] != "Yes":
                     problems.append("control message bit %d influences the result although unused-field checking is %s" % (k, o["unused"]))
-        # version nibble consulted?
-        rver = "r[q[%s/%d]/%d]" % (F, 1 << hs["version_shift"], 1 << hs["version_bits"])
+        # version nibble consulted?  Every symbol of this path that denotes exactly the version bits of the flag word
+        # (however the code carved them out: (w >> 4) & 0xf, (w as u8) >> 4, (w & 0xf0) >> 4, ...) is one view of it
+        q_, _r = eng.divmod_const(st, Lin.sym(F), 1 << hs["version_shift"])
+        _q, r_ = eng.divmod_const(st, q_, 1 << hs["version_bits"])
+        rver = next(iter(r_.t))
+        layout.canonical_value(eng, st, r_)            # tells the solver that all such views are equal
+        vspan = (F, hs["version_shift"], hs["version_bits"])
+        views = set(nm for nm in layout._divdefs(st) if layout.bitspan(eng, st, Lin.sym(nm)) == vspan)
         defs = st.ghost.get("defs", set())
-        used = [c for c in st.cons if rver in c[0].t and c[0].key() not in defs]
+        used = [c for c in st.cons if (views & set(c[0].t)) and c[0].key() not in defs and not (len(c[0].t) == 2 and set(c[0].t) <= views)]
         if used and o["version"] != "Yes":
             problems.append("the version nibble influences the result although version checking is %s" % o["version"])
         if o["version"] == "Yes" and vi == 0 and not eng.ent(st, c_eq(Lin.sym(rver), Lin.const(hs["version"]))):
